@@ -85,6 +85,41 @@ func elContractJSON(c *transaction.IssuanceContract) []byte {
 		`","precision":` + strconv.FormatUint(uint64(c.Precision), 10) + `,"ticker":"` + c.Ticker +
 		`","version":` + strconv.FormatUint(uint64(c.Version), 10) + `}`)
 }
+// the canonical document by its definition (marshal, decode into interface{}, marshal), on a private copy of the
+// contract type so that nothing of transaction/issuance.go is involved
+type elContractDoc struct {
+	Name      string `json:"name"`
+	Ticker    string `json:"ticker"`
+	Version   uint   `json:"version"`
+	Precision uint   `json:"precision"`
+	PubKey    string `json:"issuer_pubkey"`
+	Entity    struct {
+		Domain string `json:"domain"`
+	} `json:"entity"`
+}
+
+func elCanonicalContractHash(c *transaction.IssuanceContract) []byte {
+	if c == nil {
+		return make([]byte, 32)
+	}
+	d := elContractDoc{Name: c.Name, Ticker: c.Ticker, Version: c.Version, Precision: c.Precision, PubKey: c.PubKey}
+	d.Entity.Domain = c.Entity.Domain
+	first, err := json.Marshal(d)
+	if err != nil {
+		panic(err)
+	}
+	var generic interface{}
+	if err := json.Unmarshal(first, &generic); err != nil {
+		panic(err)
+	}
+	second, err := json.Marshal(generic)
+	if err != nil {
+		panic(err)
+	}
+	h := sha256.Sum256(second)
+	return h[:]
+}
+
 func elContractHash(c *transaction.IssuanceContract) []byte {
 	if c == nil {
 		return make([]byte, 32)
@@ -160,9 +195,7 @@ func checkC13IssMid(t *Toks) string {
 func checkC13IssCon(t *Toks) string {
 	asset, token, prec := t.U64(), t.U64(), uint(t.U64())
 	c := issReadContract(t)
-	if c != nil && !issContractInDomain(c) {
-		return "SKIP contract-outside-modelled-alphabet"
-	}
+	inDomain := c == nil || issContractInDomain(c)
 	ie, err := transaction.NewTxIssuance(asset, token, prec, c)
 	wantErr := prec > 8 || (c != nil && c.Precision != prec)
 	if wantErr {
@@ -174,7 +207,19 @@ func checkC13IssCon(t *Toks) string {
 	if err != nil {
 		return fail("NewTxIssuance", "error-in-domain")
 	}
-	if !bytes.Equal(ie.ContractHash, elContractHash(c)) {
+	// the contract hash is the SHA-256 of the canonical document: the contract's JSON decoded into a generic value and
+	// encoded again (keys sorted, numbers through float64, strings re-escaped), for every contract
+	if !bytes.Equal(ie.ContractHash, elCanonicalContractHash(c)) {
+		d := "differs-from-canonical-document"
+		if c != nil && uint64(c.Version) >= 1<<53 {
+			d += "/version-above-2^53"
+		} else if !inDomain {
+			d += "/escaped-string"
+		}
+		return fail("NewTxIssuance.contract-hash", d)
+	}
+	// ... which on the modelled alphabet and number range is the key-sorted document written by hand
+	if inDomain && !bytes.Equal(ie.ContractHash, elContractHash(c)) {
 		return fail("NewTxIssuance.contract-hash", "differs-from-sorted-json-hash")
 	}
 	if !bytes.Equal(ie.AssetAmount, elAmount(asset)) || !bytes.Equal(ie.TokenAmount, elAmount(token)) {
@@ -183,7 +228,7 @@ func checkC13IssCon(t *Toks) string {
 	if !bytes.Equal(ie.AssetBlindingNonce, make([]byte, 32)) {
 		return fail("NewTxIssuance.nonce", "not-32-zero-bytes")
 	}
-	if c != nil {
+	if c != nil && inDomain {
 		// the hash does not depend on the order in which the contract's JSON lists its keys
 		fields := []string{
 			`"name":` + strconv.Quote(c.Name), `"ticker":` + strconv.Quote(c.Ticker),
